@@ -159,6 +159,16 @@ func (e *Engine) installStubs() {
 	S["verif:verifLocksHeld"] = func(e *Engine, st *State, c *callInfo, a []Value) Value {
 		return e.ghostTerm(st, "locks.held", func() *Term { return BVu(0, 64) })
 	}
+	S["verif:verifUseReal"] = func(e *Engine, st *State, c *callInfo, a []Value) Value {
+		delete(e.stubs, mustConcreteStr(a[0], "verifUseReal"))
+		return nil
+	}
+	S["verif:verifTier"] = func(e *Engine, st *State, c *callInfo, a []Value) Value {
+		if e.tier == "thorough" {
+			return a[1]
+		}
+		return a[0]
+	}
 	S["verif:verifSymbolic"] = func(e *Engine, st *State, c *callInfo, a []Value) Value { return True() }
 	S["verif:verifNote"] = func(e *Engine, st *State, c *callInfo, a []Value) Value {
 		e.noteAssumption(mustConcreteStr(a[0], "verifNote"))
@@ -340,6 +350,46 @@ func (e *Engine) installStubs() {
 		x := e.bytesToString(st, a[0].(*SliceV), c.site)
 		y := e.bytesToString(st, a[1].(*SliceV), c.site)
 		return eqValue(x, y, types.Typ[types.String])
+	}
+
+	// sort.Slice: compare-exchange network driven by the real less closure (n <= 6)
+	S["sort.Slice"] = func(e *Engine, st *State, c *callInfo, a []Value) Value {
+		iv := a[0].(*IfaceV)
+		if len(iv.A) != 1 {
+			panic(unsupported("sort.Slice on multi-alternative interface"))
+		}
+		sl := iv.A[0].V.(*SliceV)
+		less := a[1].(*FuncV)
+		e.noteAssumption("sort.Slice: bubble network over <= 6 elements using the real less closure; ties keep their order (Go leaves it unspecified)")
+		for _, al := range sl.A {
+			if al.Base == nil {
+				continue
+			}
+			n, ok := e.lenBound(st, al)
+			if !ok || n > 6 {
+				panic(unsupported("sort.Slice over more than 6 elements"))
+			}
+			for pass := 0; pass < n; pass++ {
+				for j := 0; j+1 < n-pass; j++ {
+					J, J1 := BVu(uint64(j), 64), BVu(uint64(j+1), 64)
+					inb := And(al.G, Ult(J1, al.Len))
+					if inb.IsFalse() {
+						continue
+					}
+					probe := st.fork()
+					probe.assume(inb)
+					if probe.pcFalse() {
+						continue
+					}
+					r := e.callback(probe, c, less, []Value{J1, J})
+					sw := And(inb, r.(*Term))
+					x, y := e.sliceGet(st, al, J), e.sliceGet(st, al, J1)
+					e.sliceSet(st, al, J, mergeV(sw, y, x), True())
+					e.sliceSet(st, al, J1, mergeV(sw, x, y), True())
+				}
+			}
+		}
+		return nil
 	}
 
 	installEnvStubs(e)
